@@ -35,7 +35,31 @@ def units(ctx):
     us += [contract_unit(c, world_setup=yaqltypes.setup)
            for c in yaqltypes.contracts()
            if c.short.endswith('convert/identity')]
+    # the regex engine is opaque to the verifier (T-re): the whole family,
+    # through the real engine, against an independent model over `re`
+    from props._common import bounded_unit
+    us.append(bounded_unit(
+        'bounded:c19-regex', 'c19_regex.py',
+        'BOUNDED: matches/=~/!~, search, searchAll, split, replace, '
+        'replaceBy (both spellings, counts 0..2) with the match records '
+        '($1.., named groups) seen by selectors, 18 patterns with numbered '
+        'and named groups x flag combinations x all strings over {a,b,=} up '
+        'to length 2 (4 in the thorough tier) plus Unicode samples',
+        timeout=1500))
     return us
+
+
+def post(ctx, results):
+    from props._common import attach_replay
+    bounded = [o for r in results for o in r['obligations']
+               if o['name'] == 'bounded:c19-regex']
+    rep = (bounded[0].get('replay') if bounded else None)
+    if rep and rep.get('status') == 'failed':
+        attach_replay(results, lambda o: not o.get('bounded')
+                      and 'regex' in o.get('name', '')
+                      and o.get('kind') in ('post', 'raises', 'inv-step',
+                                            'inv-init', 'encoding'), rep)
+    return results
 
 LEVEL = 'proof'
 LEVEL_TEXT = ('Every listed strings/regex function is checked against a '
